@@ -314,6 +314,8 @@ class Shadow:
                 return base
             if isinstance(base, Cell):  # element / slice of a tensor: an uninterpreted view of it
                 return Cell(Rat.app(self.atoms, f"index[{ast.unparse(e.slice)[:30]}]", (base.v,)), base=base)
+            if isinstance(base, Rat):  # element of an unknown (non-tensor) input, e.g. an index list: uninterpreted
+                return Rat.app(self.atoms, f"index[{ast.unparse(e.slice)[:30]}]", (base,))
             raise Unsupported(f"subscript {ast.unparse(e)[:50]}")
         if isinstance(e, ast.BinOp):
             return self.binop(e.op, self.ev(e.left, fr, fi), self.ev(e.right, fr, fi))
